@@ -91,6 +91,12 @@ func (fr *Frame) execInstr(in ssa.Instruction, st *State, alive *Term) *Term {
 		ref := fr.newRef(st, x.Name())
 		fr.vals[x] = g.withType(ref, x.Type())
 		el := x.Type().(*types.Pointer).Elem()
+		if typeShort(el) == "bytes.Buffer" {
+			// A-BUF: the zero value of bytes.Buffer is an empty buffer
+			if _, declared := g.spec.Ghosts["bufText"]; declared {
+				st.Set("g:bufText", vc.define("g_bufText", Store(st.Get(g, "g:bufText"), ref, g.strLit(""))))
+			}
+		}
 		switch el.Underlying().(type) {
 		case *types.Array, *types.Struct:
 		default:
@@ -139,7 +145,7 @@ func (fr *Frame) execInstr(in ssa.Instruction, st *State, alive *Term) *Term {
 	case *ssa.Convert:
 		fr.execConvert(x, st)
 	case *ssa.TypeAssert:
-		fr.execTypeAssert(x, alive)
+		fr.execTypeAssert(x, alive, st)
 	case *ssa.FieldAddr:
 		base := fr.val(x.X)
 		if _, nested := x.X.(*ssa.FieldAddr); !nested {
@@ -393,6 +399,7 @@ func (fr *Frame) load(addr ssa.Value, ty types.Type, st *State, alive *Term, in 
 				v := fr.vc.define("elval", App("omVal", SVal, m, pos))
 				fr.vc.assume(Implies(App("isTable", SBool, App("elMap", SInt, base)), App("tableVal", SBool, v)))
 				fr.vc.assume(Implies(And(Not(App("isTable", SBool, App("elMap", SInt, base))), tester("VMap", v)), Not(App("isTable", SBool, mk("mv", SInt, v)))))
+				fr.vc.assume(Implies(tester("VMap", v), Lt(App("hgtM", SInt, mk("mv", SInt, v)), App("hgtM", SInt, App("elMap", SInt, base))))) // A-TREE
 				return v
 			}
 			unsupported("load of ordered-map element field %s", fieldName(a))
@@ -688,14 +695,14 @@ func (fr *Frame) typeTest(v *Term, ty types.Type) (*Term, *Term) {
 	return okc, g.withType(out, ty)
 }
 
-func (fr *Frame) execTypeAssert(x *ssa.TypeAssert, alive *Term) {
+func (fr *Frame) execTypeAssert(x *ssa.TypeAssert, alive *Term, st *State) {
 	g := fr.vc.g
 	v := fr.val(x.X)
 	var okc, out *Term
 	if v.Sort == SVal {
 		okc, out = fr.typeTest(v, x.AssertedType)
 		if strings.HasPrefix(typeShort(x.AssertedType), "*orderedmap.OrderedMap") {
-			fr.vc.assume(Implies(tester("VMap", v), Not(Eq(mk("mv", SInt, v), IntLit(0))))) // VAL-INV
+			fr.vc.assume(Implies(tester("VMap", v), And(Not(Eq(mk("mv", SInt, v), IntLit(0))), Le(mk("mv", SInt, v), st.Get(g, "heapTop"))))) // VAL-INV: a map reference inside a value is non-nil and refers to an existing cell
 		}
 	} else {
 		// assertion on a non-empty interface value (e.g. err.(*net.AddrError)): by dynamic type tag
